@@ -28,7 +28,9 @@ Inductive op :=
 | Tick (dt : Z)          (* the clock advances by dt (negative values count as 0) *)
 | Service                (* one _loop(): read one queued packet if any, then loop_misc *)
 | AppSend                (* publish()/subscribe(): a packet is written at once *)
-| Rx (p : inpkt).        (* broker traffic reaches the client's socket buffer *)
+| Rx (p : inpkt)         (* broker traffic reaches the client's socket buffer *)
+| Reconnect.             (* the application calls reconnect(): old socket closed without callback, new socket,
+                            CONNECT written, both stamps := now, _ping_t := 0, state CONNECTING *)
 
 Definition RxPingresp := Rx InPingresp.
 Definition RxOther := Rx InOther.
@@ -49,6 +51,7 @@ Definition RC_SUCCESS := 0.
 Definition RC_NO_CONN := 4.
 Definition RC_CONN_LOST := 7.
 Definition RC_KEEPALIVE := 16.
+Definition RC_RECONNECT := -1.        (* socket closed by reconnect(): no on_disconnect, no rc *)
 
 Record st := mkst {
   now : Z; kk : Z;
@@ -128,6 +131,9 @@ Definition step (s : st) (o : op) : st * list evk :=
       if sock s
       then (mkst (now s) (kk s) (last_in s) (last_out s) (ping_t s) (cstate s) (sock s) (inq s ++ [p]), [Arr p])
       else (s, [])
+  | Reconnect =>
+      (mkst (now s) (kk s) (now s) (now s) 0 CsConnecting true [],
+       (if sock s then [Closed RC_RECONNECT] else []) ++ [TxConnect])
   end.
 
 Definition stamp (t : Z) (l : list evk) : list event := map (fun k => (t, k)) l.
@@ -185,6 +191,7 @@ Record pmon := mkpmon {
 Definition pmon0 := mkpmon None 0 0 None false.
 Definition pmon_step (m : pmon) (e : event) : pmon :=
   match snd e with
+  | TxConnect => pmon0
   | TxPing => mkpmon (Some (fst e)) 0 0 None false
   | Rd InPingresp => mkpmon None (pm_cb_ka m) (pm_cb_other m) (pm_closed m) (pm_rc m)
   | CbDisconnect rc =>
@@ -209,6 +216,7 @@ Definition amon_step (k : Z) (m : amon) (e : event) : amon :=
   let late := match am_cur m with Some t => fst e >? t + k | None => false end in
   let bad := match am_bad m with Some b => Some b | None => if late then am_cur m else None end in
   match snd e with
+  | TxConnect => mkamon None bad
   | TxPing => mkamon (Some (fst e)) bad
   | Arr InPingresp => mkamon None bad
   | _ => mkamon (am_cur m) bad
@@ -223,7 +231,7 @@ Definition aged (k now : Z) (w : option Z) : bool :=
   match w with Some t => now - t >=? k | None => false end.
 Definition jmon_step (k : Z) (m : jmon) (e : event) : jmon :=
   match snd e with
-  | TxConnect => mkjmon (Some (fst e)) (jm_ping m) (jm_ok m)
+  | TxConnect => mkjmon (Some (fst e)) None (jm_ok m)
   | TxPing => mkjmon (jm_conn m) (Some (fst e)) (jm_ok m)
   | Rd InConnack => mkjmon None (jm_ping m) (jm_ok m)
   | Rd InPingresp => mkjmon (jm_conn m) None (jm_ok m)
@@ -246,7 +254,7 @@ Definition overdue (k d now : Z) (w : option Z) : bool :=
 Definition tmon_step (k d : Z) (m : tmon) (e : event) : tmon :=
   let ok := tm_ok m && negb (overdue k d (fst e) (tm_conn m)) && negb (overdue k d (fst e) (tm_ping m)) in
   match snd e with
-  | TxConnect => mktmon (Some (fst e)) (tm_ping m) (ok && (d <=? k))
+  | TxConnect => mktmon (Some (fst e)) None (ok && (d <=? k))
   | TxPing => mktmon (tm_conn m) (Some (fst e)) (ok && (d <=? k))
   | Arr InConnack => mktmon None (tm_ping m) ok
   | Arr InPingresp => mktmon (tm_conn m) None ok
@@ -261,6 +269,7 @@ Definition timely (k d : Z) (tr : list event) : bool :=
 Record qmon := mkqmon { qm_len : Z; qm_ok : bool }.
 Definition qmon_step (m : qmon) (e : event) : qmon :=
   match snd e with
+  | TxConnect => mkqmon 0 (qm_ok m)
   | Arr _ => mkqmon (qm_len m + 1) (qm_ok m)
   | Rd _ => mkqmon (qm_len m - 1) (qm_ok m)
   | Closed _ => mkqmon 0 (qm_ok m)
@@ -271,7 +280,7 @@ Definition calm (tr : list event) : bool :=
   qm_ok (fold_left qmon_step tr (mkqmon 0 true)).
 
 (* ---- correspondence entry:  [t0; K; op ...]  with op codes
-     0 dt = Tick dt | 1 = Service | 2 = AppSend | 3 p = Rx p (0 CONNACK, 1 PINGRESP, 2 other, 3 EOF)
+     0 dt = Tick dt | 1 = Service | 2 = AppSend | 3 p = Rx p (0 CONNACK, 1 PINGRESP, 2 other, 3 EOF) | 4 = Reconnect
    result: events as triples (time, code, arg) followed by the final state
      -1 now last_in last_out ping_t cstate(0 connecting,1 connected,2 lost) sock |inq| *)
 Definition inpkt_of_Z (z : Z) : inpkt :=
@@ -288,6 +297,7 @@ Fixpoint decode_ops (fuel : nat) (l : list Z) : list op :=
       | 1 :: r => Service :: decode_ops f r
       | 2 :: r => AppSend :: decode_ops f r
       | 3 :: p :: r => Rx (inpkt_of_Z p) :: decode_ops f r
+      | 4 :: r => Reconnect :: decode_ops f r
       | _ => []
       end
   end.
